@@ -321,9 +321,38 @@ func runC05(r *Run) {
 							intact = false // a byte outside the field (a sibling or padding) changed
 						}
 					}
+					// a Go bool holds 0 or 1, whatever byte the data carried
+					improper := ""
+					if res == "ok" && !nullInto { // (a null branch stores nothing: the pre-filled pattern stays)
+						f := dst.Elem().Field(2)
+						for f.Kind() == reflect.Pointer && !f.IsNil() {
+							f = f.Elem()
+						}
+						check := func(b reflect.Value) {
+							if b.Kind() == reflect.Bool && b.CanAddr() {
+								if raw := *(*byte)(b.Addr().UnsafePointer()); raw > 1 {
+									improper = fmt.Sprintf("a Go bool holding the raw byte %#x", raw)
+								}
+							}
+						}
+						switch f.Kind() {
+						case reflect.Bool:
+							check(f)
+						case reflect.Slice:
+							for i := 0; i < f.Len(); i++ {
+								check(f.Index(i))
+							}
+						case reflect.Struct:
+							if vf := f.FieldByName("Bool"); vf.IsValid() {
+								check(vf)
+							}
+						}
+					}
 					switch {
 					case res == "panic":
 						r.Fail(id, "decode-panic", "decoding into a type-checked destination panics", d2)
+					case improper != "":
+						r.Fail(id, "improper-value", "the decoded value is not a value of its Go type: "+improper, d2)
 					case !intact:
 						r.Fail(id, "store-outside-destination", "memory around the destination field was modified", d2)
 					case out && res == "ok":
